@@ -1821,8 +1821,16 @@ def rule_query(repo):
 # per elaboration and cached per defining class (decided by C02's cache-scope rule)
 from rules.c02 import rule_cache_scope      # noqa: E402
 
+def rule_registry_after_replace(repo):
+    """after replace_component the registry of named objects holds exactly the live objects: everything the removed
+    subtree contributed (signals AND method ports / interfaces) is taken out, otherwise stale '<deleted>' objects share names
+    with their replacements.  Shared with C15 (R-C15-sites)."""
+    from rules.c15 import rule_sites
+    return rule_sites(repo)
+
+
 RULES = [rule_name_storage, rule_cache, rule_meta, rule_reassign, rule_siblings, rule_api, rule_collect, rule_query,
-         rule_cache_scope]
+         rule_cache_scope, rule_registry_after_replace]
 
 # ---------------------------------------------------------------------------
 # self-test of the checker (thorough tier)
